@@ -1,7 +1,8 @@
-// Package c15 decides property C15 (X.509 create / parse / verify) by executing
-// smx509 on generated templates, key types and PKI topologies next to (i) field and
-// signature laws, (ii) the alteration law, (iii) a ground-truth model of the
-// generated PKI and (iv) crypto/x509 on a twin instance with other key types.
+// Property C15 (X.509 create / parse / verify) is decided by executing smx509 on
+// generated templates, key types and PKI topologies next to (i) field and signature
+// laws, (ii) the alteration law (this file), (iii) a ground-truth model of the
+// generated PKI and (iv) crypto/x509 on a twin instance with other key types (chains.go).
+
 package c15
 
 import (
@@ -473,10 +474,9 @@ func stdlibCrossCheck(c *mon.Case, der []byte, signer, subj key, issuer *smx509.
 	}
 }
 
+// checkSigStd uses Certificate.CheckSignature of the standard library, which (unlike
+// CheckSignatureFrom) also accepts the SHA-1 algorithms of workload c15.sha1.
 func checkSigStd(issuer *x509.Certificate, sc *x509.Certificate) error {
-	if sc.SignatureAlgorithm == x509.SHA1WithRSA || sc.SignatureAlgorithm == x509.ECDSAWithSHA1 {
-		// CheckSignature (unlike CheckSignatureFrom) accepts SHA-1 in the standard library
-	}
 	return issuer.CheckSignature(sc.SignatureAlgorithm, sc.RawTBSCertificate, sc.Signature)
 }
 
